@@ -116,23 +116,23 @@ CHECKS.update({
 ADDED = {
     "C01": "In-band error report confined to the `no subscriber` branch evaluated at report time.",
     "C02": "Also: reset-before-use of every output buffer on all paths (premise of the typestate, = R14.2); the string sanitizer hands text to the serde_json escaper exactly once and never appends it raw; splice offsets are measured on encoded text. Every success writes at least one record (R02.8, C03's life-sign analysis).",
-    "C03": "Also: dimension carriers rebuilt per call; a record is skipped only through the empty-value-buffer edge and every success writes a record; exact text through the escaper (= R02.6); finiteness tests decide about skipping only on clamped values (only NaN is unusable).",
+    "C03": "Also: dimension carriers rebuilt per call; a record is skipped only through the empty-value-buffer edge and every success writes a record; exact text through the escaper (= R02.6); finiteness tests decide about skipping only on clamped values (only NaN is unusable). An unsigned observation's payload is never converted to floating point on the way to the output (R03.9).",
     "C04": "Also: the entries-before-wake counter protocol inside the tracker (exact decrement, constant only with release, pure ring bound armed after every collection).",
     "C05": "Also: the drain used at shutdown stops only on ring-empty or deadline; the attach handle's detach fn is called exactly once when present.",
     "C06": "Also: a force-flush guard is a Weak of the shared guard cell on every path. The guards' release slot is filled only where it is created (no get_or_insert/insert/replace/assignment on it).",
-    "C07": "Also (on the proc macro's own MIR): generator <-> trait positional agreement and the style tables; the macro's name functions bypass the container prefix only on the item's own say-so; witness obligations in contract form (LEN exact, HAVE_VAL => MAYBE_VAL exact) incl. nested chains beyond the limit. In the macro's code-generating loops no token-valued variable carries a value from one item to the next (R07.7).",
+    "C07": "Also (on the proc macro's own MIR): generator <-> trait positional agreement and the style tables; the macro's name functions bypass the container prefix only on the item's own say-so; witness obligations in contract form (LEN exact, HAVE_VAL => MAYBE_VAL exact) incl. nested chains beyond the limit. In the macro's code-generating loops no token-valued variable carries a value from one item to the next (R07.7). An item's base name leaves a name function only through the style table or as the item's explicit name (R07.8).",
     "C08": "Also: registry key not folded by lossy arithmetic; entry dimension sets adopted only after their names were registered (or with every registry-consulting switch off); reset-before-use premise (= R14.2); an accepted entry-dimensions configuration is always remembered (or an error recorded).",
-    "C09": "Also: the loss is counted under the queue's own name and the recorder bridges reach no thread-local / once-initialised / static state. The loss may be tallied in an atomic and reported later only if the tally is drained by the same atomic step that reads it (swap).",
+    "C09": "Also: the loss is counted under the queue's own name and the recorder bridges reach no thread-local / once-initialised / static state.",
     "C10": "Also: every receive site handles Entry; the flush future sends its request and awaits the paired acknowledgement on every path (coroutine logical CFG); value-strategy operation table; the aggregate macro's generator pairs accum.#f with input.#f. The generated merge statement is unconditional (no generated control flow around the insert); every generator runs over the key/ignored filter.",
     "C11": "Also: sort-and-merge merges on exact equality of recorded values; the capture rule covers the shared-decoder form (filter_map, never a terminal adapter). From inside the per-observation loop the function is left only through the loop's own exit.",
-    "C12": "Also: every group gets a fresh rate in an update; the weight's data slice is f64-only with the floor taken as f64->u64; the per-group moving average is written as a unit; every field the rate is computed from is rewritten for every group.",
+    "C12": "Also: every group gets a fresh rate in an update; the weight's data slice is f64-only with the floor taken as f64->u64; the per-group moving average is written as a unit; every field the rate is computed from is rewritten for every group. Helpers on the weight's data slice keep no state between calls.",
     "C13": "Also: a received value is stored once per receiver (path rule across the await points of the future).",
     "C15": "Also: a `&mut self` wrapper method never writes or mutably lends one of the wrapper's own fields except to the forwarding call. The object-safe mirror traits behind the boxed entry are discovered by role (bound on the public trait, subset of its methods), with floors on what must be found; a wrapper method delegating to one private helper is judged in the helper.",
     "C16": "Also: an error on one entry cannot change what happens to later entries (= R01.3) and leaves nothing behind in the formatter's buffers (= R14.2).",
-    "C17": "Also: the append to the attached sink happens under the global's read lock, in the macro's try_append and through it in the blanket append.",
+    "C17": "Also: the append to the attached sink happens under the global's read lock, in the macro's try_append and through it in the blanket append. The thread-local guard is built only after the install succeeded.",
     "C18": "Also: the stopwatch's own start field is only ever cleared; adding a span stores Some(..) on every path.",
     "C19": "Also: the product value x RATIO is emitted unaltered; a Duration is read without a truncating accessor. A collecting writer consumes observations only on paths past the `written unit == promised unit` edge (path-sensitive).",
-    "C20": "Also: the units map is obtained after the registry walk; the bridge histogram's drain always sweeps the buckets and keeps no side flag. From taking a readout to appending it no suspension point and no end of body (also when the readout is taken in a closure handed to a spawn function).",
+    "C20": "Also: the units map is obtained after the registry walk; the bridge histogram's drain always sweeps the buckets and keeps no side flag. From taking a readout to appending it no suspension point and no end of body (also when the readout is taken in a closure handed to a spawn function). A readout walks the registry only with non-evicting visits.",
 }
 NA_PENDING = {}
 
